@@ -957,7 +957,7 @@ theorem vacuum_twice_rows_length (σ : State) (α : Spec.State) (h : Rel σ α) 
 theorem trimChain_sublist (h : Nat) (l : List Version) : (trimChain h l).Sublist l := by
   cases l with
   | nil => exact List.Sublist.refl _
-  | cons v tl => exact List.Sublist.cons₂ _ (List.takeWhile_sublist _)
+  | cons v tl => exact List.Sublist.cons_cons _ (List.takeWhile_sublist _)
 
 theorem liveVersions_sublist (V : VDefects) (s : Snapshot) (r : Row) : (liveVersions V s r).Sublist r.versions := by
   unfold liveVersions
